@@ -13,6 +13,24 @@ CLAIMS = {
         note="Trusted base: Python int.to_bytes/from_bytes, slicing and bytes.join semantics; the reference tables in rules/c11.py transcribed by hand from MS-GKDI 2.2.1-2.2.4 and 3.1.4.1.",
         ref="DESIGN.md section 5 / C11",
     ),
+    "C12": dict(
+        technique="static analysis: symbolic layout tables (writer = reader = reference), loop-variant certificates with interval analysis, finite flag truth table",
+        text="Decides for all values and lengths: writer table = reader table for the 26 binary codecs of _rpc/_epm incl. bit fields, padding residues, repeated elements and PDU framing; writer tables = reference tables from C706/MS-RPCE; every decoder loop has a termination/bounded-work certificate; registries complete; open enums keep their value; the verification-trailer loop ends exactly on the END bit. Does not decide: work proportional to length as a measured quantity.",
+        note="Trusted base: Python int.to_bytes/from_bytes/slicing semantics; reference tables in rules/c12.py transcribed by hand from C706 ch.12-13/app. L and MS-RPCE.",
+        ref="DESIGN.md section 5 / C12",
+    ),
+    "C14": dict(
+        technique="static analysis: transport-read discipline (read-exact typestate), loop certificates, CFG path enumeration for EOF exits, symbolic buffer coverage",
+        text="Decides for every segmentation/EOF point (it is a property of every read site, not of a schedule): each transport read is readexactly or sits in a certified read-until-full loop whose EOF branch raises and whose only normal exit is 'buffer full'; the decoded header buffer is exactly the header size and complete; the frag_len reply buffer is covered exactly by header copy + complete body read; both transports hand the same tuple to _process_response. Does not decide: promptness as a time bound.",
+        note="Trusted summaries: socket.recv_into returns 0 only at EOF else >= 1; StreamReader.readexactly returns exactly n bytes or raises.",
+        ref="DESIGN.md section 5 / C14",
+    ),
+    "C18": dict(
+        technique="static analysis: loop certificates + interval analysis, layout tables vs NDR64 reference, CFG guards/dominance and cycle test for first-match selection",
+        text="Decides: every ept_map decoder loop is bounded (tower count tied to the reply size by a dominating guard; floor count <= 65535); EptMap/EptMapResult/Floor/typed-floor writer = reader tables and NDR64 tower alignment; the status test guards every tower use, the first TCP floor in reply order is returned, no fall-through; TCP floor = protocol 0x07, 2-byte big-endian port. Does not decide: time/memory as measured quantities.",
+        note="Trusted base: Python slicing semantics; NDR64/tower layout transcribed from C706 appendix L and MS-RPCE 2.2.1.2.5.",
+        ref="DESIGN.md section 5 / C18",
+    ),
 }
 
 NA_REASON = "check not built yet in this session (design in DESIGN.md section 5); not claimed until its engine passes the self-test"
